@@ -166,3 +166,207 @@ Theorem C10_cache_irrelevant : forall vapp prim_value skip veq kind uc c p exs,
   cache_inv vapp prim_value skip (snd (test_cached vapp prim_value skip veq kind uc c p exs)).
 Proof. exact test_cached_correct. Qed.
 Print Assumptions C10_cache_irrelevant.
+
+(** ======== RestartPBESolver (restart_pbe_solver.py) around a naive or cut-off
+    sub-solver.  Model in Sem/SolverRestart.v, proofs in
+    Sem/SolverRestartProofs.v.  Generic in the restart criterion [crit] (any
+    function of the solver object) and in the scripted enumerations [streams]
+    (stream 0: the enumerator given to solve(); stream i+1: the enumerator
+    returned by the i-th clone()).  [rrun ... true] is the loop after the
+    proposed repair C10b-1 (an exhausted enumeration ends the generator).
+    The EFFECTIVE stream [effective_of] is the sequence of programs drawn from
+    the successive enumerations when every proposal is rejected; it does not
+    depend on the answers. ======== *)
+From PS Require Import Sem.SolverRestart Sem.SolverRestartProofs.
+
+(** The events seen by the caller are those of the protocol specification of
+    the plain solvers over the effective stream: with C10_passing_exactly,
+    C10_order, C10_stop, C10_resume, C10_exhausted, C10_reject_all and
+    C10_raise (all stated for an arbitrary program list) the yielded programs
+    are exactly, in order, the passing programs of the effective stream; True
+    stops, False resumes at the next program. *)
+Theorem C10_restart_yields : forall vapp prim_value skip veq crit timed_out,
+  (forall k, timed_out k = false) ->
+  forall kind exs streams s answers,
+    fst (rrun vapp prim_value skip veq timed_out crit true kind exs streams s answers) =
+    spec_events vapp prim_value skip veq kind exs
+                (effective_of vapp prim_value skip veq crit kind exs streams s) answers.
+Proof. exact restart_events. Qed.
+Print Assumptions C10_restart_yields.
+
+(** The restart solver is its sub-solver run on the effective stream. *)
+Theorem C10_restart_equals_plain : forall vapp prim_value skip veq crit timed_out,
+  (forall k, timed_out k = false) ->
+  forall kind exs streams s sp answers,
+    fst (rrun vapp prim_value skip veq timed_out crit true kind exs streams s answers) =
+    fst (run_task vapp prim_value skip veq timed_out kind exs
+                  (effective_of vapp prim_value skip veq crit kind exs streams s) sp answers).
+Proof. exact restart_equals_plain. Qed.
+Print Assumptions C10_restart_equals_plain.
+
+(** The effective stream is the concatenation of the pieces [segments_of],
+    which satisfy the declarative specification [Consumed]: piece i is a
+    prefix of enumeration i made of programs at which the test does not raise
+    and the criterion does not fire, closed by the first program at which the
+    criterion fires (then piece i+1 is drawn from enumeration i+1, starting at
+    its first program, in the solver state reached) or at which the test
+    raises (then the search ends), or it is the whole enumeration. *)
+Theorem C10_restart_effective : forall vapp prim_value skip veq crit kind exs streams s,
+  Consumed vapp prim_value skip veq crit kind exs (hd [] streams :: tl streams) 0 (r_init s)
+           (segments_of vapp prim_value skip veq crit kind exs streams s) /\
+  effective_of vapp prim_value skip veq crit kind exs streams s =
+  concat (segments_of vapp prim_value skip veq crit kind exs streams s).
+Proof. exact effective_consumed. Qed.
+Print Assumptions C10_restart_effective.
+
+(** [Consumed] determines the pieces ... *)
+Theorem C10_restart_effective_unique : forall vapp prim_value skip veq crit kind exs streams k s sg,
+  Consumed vapp prim_value skip veq crit kind exs streams k s sg ->
+  forall sg', Consumed vapp prim_value skip veq crit kind exs streams k s sg' -> sg = sg'.
+Proof. exact consumed_unique. Qed.
+Print Assumptions C10_restart_effective_unique.
+
+(** ... and each piece is a prefix of its enumeration: nothing is skipped, in
+    particular not the first program of a restarted enumeration. *)
+Theorem C10_restart_pieces_are_prefixes : forall vapp prim_value skip veq crit kind exs streams k s sg,
+  Consumed vapp prim_value skip veq crit kind exs streams k s sg ->
+  forall i, exists rest, nth i streams [] = nth i sg [] ++ rest.
+Proof. exact consumed_prefix. Qed.
+Print Assumptions C10_restart_pieces_are_prefixes.
+
+(** When the solution of index i of the effective stream is accepted: the
+    'programs' statistic is its rank i+1; the 'restarts' statistic grows by
+    the number of times the criterion fired on the programs before it, and
+    the restarts happened right after those programs ([rcuts]); every program
+    up to the solution has been drawn once and tested once, in order. *)
+Theorem C10_restart_stats : forall vapp prim_value skip veq crit timed_out,
+  (forall k, timed_out k = false) ->
+  forall kind exs streams s a0 replies i,
+    accepted (fst (scan vapp prim_value skip veq kind exs 0
+                        (effective_of vapp prim_value skip veq crit kind exs streams s))) replies = Some i ->
+    let s2 := snd (rrun vapp prim_value skip veq timed_out crit true kind exs streams s (a0 :: replies)) in
+    let before := firstn i (effective_of vapp prim_value skip veq crit kind exs streams s) in
+    rtotal s2 = S i /\
+    rtotal_restarts s2 =
+      rtotal_restarts s + length (fired_positions vapp prim_value skip veq crit kind exs before 0 (r_init s)) /\
+    rrestarts s2 = length (fired_positions vapp prim_value skip veq crit kind exs before 0 (r_init s)) /\
+    rcuts s2 = fired_positions vapp prim_value skip veq crit kind exs before 0 (r_init s) /\
+    rdrawn s2 = firstn (S i) (effective_of vapp prim_value skip veq crit kind exs streams s) /\
+    rtested s2 = firstn (S i) (effective_of vapp prim_value skip veq crit kind exs streams s).
+Proof. exact restart_accept_stats. Qed.
+Print Assumptions C10_restart_stats.
+
+(** The whole solver object at that moment: the declarative fold over the
+    programs before the solution, plus the draw and the test of the solution. *)
+Theorem C10_restart_accept_state : forall vapp prim_value skip veq crit timed_out,
+  (forall k, timed_out k = false) ->
+  forall kind exs streams s a0 replies i,
+    accepted (fst (scan vapp prim_value skip veq kind exs 0
+                        (effective_of vapp prim_value skip veq crit kind exs streams s))) replies = Some i ->
+    exists p, nth_error (effective_of vapp prim_value skip veq crit kind exs streams s) i = Some p /\
+      snd (rrun vapp prim_value skip veq timed_out crit true kind exs streams s (a0 :: replies)) =
+      r_close (r_test (r_draw (r_after_all vapp prim_value skip veq crit kind exs
+                                 (firstn i (effective_of vapp prim_value skip veq crit kind exs streams s)) 0 (r_init s)) p) p).
+Proof. exact restart_accept_state. Qed.
+Print Assumptions C10_restart_accept_state.
+
+(** No solution accepted: the statistics are untouched. *)
+Theorem C10_restart_stats_unaccepted : forall vapp prim_value skip veq crit timed_out,
+  (forall k, timed_out k = false) ->
+  forall kind exs streams s a0 replies,
+    accepted (fst (scan vapp prim_value skip veq kind exs 0
+                        (effective_of vapp prim_value skip veq crit kind exs streams s))) replies = None ->
+    rtotal (snd (rrun vapp prim_value skip veq timed_out crit true kind exs streams s (a0 :: replies))) = rtotal s /\
+    rtotal_restarts (snd (rrun vapp prim_value skip veq timed_out crit true kind exs streams s (a0 :: replies))) =
+    rtotal_restarts s.
+Proof. exact restart_unaccepted. Qed.
+Print Assumptions C10_restart_stats_unaccepted.
+
+(** A search driven to its end (every proposal rejected): the whole effective
+    stream has been drawn and tested, each program exactly once, in order; the
+    number of restarts is the number of firings of the criterion. *)
+Theorem C10_restart_complete : forall vapp prim_value skip veq crit timed_out,
+  (forall k, timed_out k = false) ->
+  forall kind exs streams s a0 replies,
+    accepted (fst (scan vapp prim_value skip veq kind exs 0
+                        (effective_of vapp prim_value skip veq crit kind exs streams s))) replies = None ->
+    length (fst (scan vapp prim_value skip veq kind exs 0
+                      (effective_of vapp prim_value skip veq crit kind exs streams s))) <= length replies ->
+    let s2 := snd (rrun vapp prim_value skip veq timed_out crit true kind exs streams s (a0 :: replies)) in
+    s2 = r_after_all vapp prim_value skip veq crit kind exs
+                     (effective_of vapp prim_value skip veq crit kind exs streams s) 0 (r_init s) /\
+    rdrawn s2 = effective_of vapp prim_value skip veq crit kind exs streams s /\
+    rtested s2 = effective_of vapp prim_value skip veq crit kind exs streams s /\
+    rcnt s2 = length (effective_of vapp prim_value skip veq crit kind exs streams s) /\
+    rrestarts s2 = length (fired_positions vapp prim_value skip veq crit kind exs
+                             (effective_of vapp prim_value skip veq crit kind exs streams s) 0 (r_init s)) /\
+    rcuts s2 = fired_positions vapp prim_value skip veq crit kind exs
+                 (effective_of vapp prim_value skip veq crit kind exs streams s) 0 (r_init s).
+Proof. exact restart_complete. Qed.
+Print Assumptions C10_restart_complete.
+
+(** Whatever the answers and wherever the caller stops: every program drawn
+    from an enumerator has been handed to the test (none is dropped). *)
+Theorem C10_restart_drawn_tested : forall vapp prim_value skip veq crit timed_out,
+  (forall k, timed_out k = false) ->
+  forall kind exs streams s a0 replies,
+    rdrawn (snd (rrun vapp prim_value skip veq timed_out crit true kind exs streams s (a0 :: replies))) =
+    rtested (snd (rrun vapp prim_value skip veq timed_out crit true kind exs streams s (a0 :: replies))).
+Proof. exact restart_drawn_tested. Qed.
+Print Assumptions C10_restart_drawn_tested.
+
+(** A criterion that never fires: the restart solver is its sub-solver on the
+    enumerator it was given (same events, statistic = rank, no restart). *)
+Theorem C10_restart_never_fires : forall vapp prim_value skip veq crit timed_out,
+  (forall k, timed_out k = false) ->
+  forall kind exs streams s sp answers,
+    (forall s0, crit s0 = false) ->
+    fst (rrun vapp prim_value skip veq timed_out crit true kind exs streams s answers) =
+    fst (run_task vapp prim_value skip veq timed_out kind exs (hd [] streams) sp answers).
+Proof. exact restart_never_fires. Qed.
+Print Assumptions C10_restart_never_fires.
+
+Theorem C10_restart_never_fires_stats : forall vapp prim_value skip veq crit timed_out,
+  (forall k, timed_out k = false) ->
+  forall kind exs streams s a0 replies i,
+    (forall s0, crit s0 = false) ->
+    accepted (fst (scan vapp prim_value skip veq kind exs 0 (hd [] streams))) replies = Some i ->
+    rtotal (snd (rrun vapp prim_value skip veq timed_out crit true kind exs streams s (a0 :: replies))) = S i /\
+    rtotal_restarts (snd (rrun vapp prim_value skip veq timed_out crit true kind exs streams s (a0 :: replies))) =
+    rtotal_restarts s /\
+    rrestarts (snd (rrun vapp prim_value skip veq timed_out crit true kind exs streams s (a0 :: replies))) = 0.
+Proof. exact restart_never_fires_stats. Qed.
+Print Assumptions C10_restart_never_fires_stats.
+
+(** The scored tests used by the restart loop have the verdict of the tests of
+    the plain solvers; the scores are what the code computes. *)
+Theorem C10_restart_test : forall vapp prim_value skip veq kind p exs,
+  test vapp prim_value skip veq kind p exs =
+  match test_scored vapp prim_value skip veq kind p exs with Ok (b, _) => Ok b | Exc e => Exc e end.
+Proof. exact test_scored_test. Qed.
+Print Assumptions C10_restart_test.
+
+Theorem C10_restart_naive_score : forall vapp prim_value skip veq p exs b sc,
+  test_scored vapp prim_value skip veq Naive p exs = Ok (b, sc) ->
+  b = passes vapp prim_value skip veq p exs /\
+  sc = (if Nat.eqb (length exs) 0 then (1, 1)
+        else (length (filter (satisfies vapp prim_value skip veq p) exs), length exs)).
+Proof. exact naive_score_spec. Qed.
+Print Assumptions C10_restart_naive_score.
+
+Theorem C10_restart_cutoff_score : forall vapp prim_value skip veq p exs b sc,
+  test_scored vapp prim_value skip veq Cutoff p exs = Ok (b, sc) ->
+  b = passes vapp prim_value skip veq p exs /\
+  sc = (if b then (1, 1) else (satisfied_prefix vapp prim_value skip veq p exs, length exs)).
+Proof. exact cutoff_score_spec. Qed.
+Print Assumptions C10_restart_cutoff_score.
+
+(** The loop as it is before repair C10b-1: on an exhausted enumeration the
+    generator raises RuntimeError where the plain solvers (and the repaired
+    loop) end with StopIteration. *)
+Theorem C10_restart_exhaustion_refuted : forall vapp prim_value skip veq crit timed_out kind exs s sp,
+  fst (rrun vapp prim_value skip veq timed_out crit false kind exs [[]] s [false]) = [Raise E_RUNTIME] /\
+  fst (rrun vapp prim_value skip veq timed_out crit true kind exs [[]] s [false]) = [Stop] /\
+  fst (run_task vapp prim_value skip veq timed_out kind exs [] sp [false]) = [Stop].
+Proof. exact pinned_exhaustion_refuted. Qed.
+Print Assumptions C10_restart_exhaustion_refuted.
